@@ -2,6 +2,7 @@ package pcrypto
 
 import (
 	"bytes"
+	"github.com/aperturerobotics/bifrost/crypto"
 	"testing"
 
 	"github.com/aperturerobotics/bifrost/peer"
@@ -150,6 +151,37 @@ func checkC13(c c13Case) (o vstat.Outcome) {
 			o.V = vstat.Viol("prefix-inconsistent", "outputs of length %d and %d disagree on their common prefix", c.OutLen, c.Out2)
 			return
 		}
+	}
+	// the same derivations with both keys loaded one after the other through one reused buffer
+	if v := vstat.Guard("DeriveKey", func() *vstat.Violation {
+		rawA, _ := gen.Key(c.A.Key).Raw()
+		rawB, _ := gen.Key(c.B.Key).Raw()
+		buf := make([]byte, len(rawA))
+		copy(buf, rawA)
+		ka, err := crypto.UnmarshalEd25519PrivateKey(buf)
+		if err != nil {
+			return nil
+		}
+		outA := make([]byte, c.OutLen)
+		if err := peer.DeriveKey(c.A.Ctx, c.A.salt(), ka, outA); err != nil {
+			return nil
+		}
+		copy(buf, rawB)
+		kb, err := crypto.UnmarshalEd25519PrivateKey(buf)
+		if err != nil {
+			return nil
+		}
+		outB := make([]byte, c.OutLen)
+		if err := peer.DeriveKey(c.B.Ctx, c.B.salt(), kb, outB); err != nil {
+			return nil
+		}
+		if !bytes.Equal(outA, a1) || !bytes.Equal(outB, b1) {
+			return vstat.Viol("key-storage-dependent", "deriving with keys read one after the other into one buffer gives other outputs than with separately stored keys (first equal=%v second equal=%v)", bytes.Equal(outA, a1), bytes.Equal(outB, b1))
+		}
+		return nil
+	}); v != nil {
+		o.V = v
+		return
 	}
 	// Ed25519 derivation
 	o.V = vstat.Guard("DeriveEd25519Key", func() *vstat.Violation {
